@@ -3,7 +3,8 @@
    read_next_directive (361-463), the `while (peek_whitespace_line())` loops of parse_xact
    (1945-2008) and of the account/commodity/payee directives, include_directive (757-841),
    journal_t::read_textual (2077-2103: error_count thrown when errors > 0), session_t::read_data
-   (the loop over the -f files) and the exit status of main.cc:196-208.
+   (the loop over the -f files: error_count caught per file, totals thrown after the last file)
+   and the exit status of main.cc:196-208.
 
    The harness hands the model the *shape* of the input: every physical line classified as
    empty / whitespace only / indented / an unindented directive or transaction head / an
@@ -167,18 +168,25 @@ Record result := mk_result {
 
 Definition os_status (n : Z) : Z := status_of_count n mod 256.
 
-(* session_t::read_data: each file is read by journal_t::read_textual, which throws
-   error_count when that file (with its includes) had errors; nothing catches it before
-   main(), so later -f files are not read and the command does not run *)
-Fixpoint session (files : list (Z * list line)) : result :=
+(* session_t::read_data: each -f file is read by journal_t::read_textual, which throws
+   error_count when that file (with its includes) had errors; read_data catches it per file,
+   adds the counts up, goes on with the remaining files and throws error_count(total) after the
+   last one.  Nothing catches that before main(), so the command does not run. *)
+Fixpoint all_msgs (files : list (Z * list line)) : list msg :=
   match files with
-  | [] => mk_result [] 0 0 true
-  | (name, ls) :: rest =>
-      let s := parse_file name [] ls in
-      if s_errs s >? 0
-      then mk_result (s_msgs s) (s_errs s) (os_status (s_errs s)) false
-      else session rest
+  | [] => []
+  | (name, ls) :: rest => s_msgs (parse_file name [] ls) ++ all_msgs rest
   end.
+
+Fixpoint all_errs (files : list (Z * list line)) : Z :=
+  match files with
+  | [] => 0
+  | (name, ls) :: rest => s_errs (parse_file name [] ls) + all_errs rest
+  end.
+
+Definition session (files : list (Z * list line)) : result :=
+  let n := all_errs files in
+  mk_result (all_msgs files) n (if n >? 0 then os_status n else 0) (negb (n >? 0)).
 
 (* ---- specification side: items --------------------------------------------------------- *)
 Definition is_head (l : line) : bool :=
